@@ -25,13 +25,14 @@ func init() {
 			"message IDs incl. values equal to the endpoint's own outgoing IDs, with loss/duplication/reordering by the network, housekeeping ticks, concurrent client-role requests of the endpoint and (concurrency mode) handlers held inside the per-MID section; " +
 			"non-trivial = at least one copy of an already seen request was delivered; distinct = distinct event-log hash",
 		Scenarios: []Scenario{
-			{Name: "S-DEDUP/boundary", Weight: 3, Run: func(e *Env) { c05Run(e, false) }},
-			{Name: "S-DEDUP/concurrent", Weight: 3, Run: func(e *Env) { c05Run(e, true) }},
-			{Name: "S-DEDUP/server-connection", Weight: 1, Run: c05ServerRun},
+			{Name: "S-DEDUP/boundary", Weight: 6, Run: func(e *Env) { c05Run(e, false) }},
+			{Name: "S-DEDUP/concurrent", Weight: 6, Run: func(e *Env) { c05Run(e, true) }},
+			{Name: "S-DEDUP/server-connection", Weight: 2, Run: c05ServerRun},
+			{Name: "S-DEDUP/lock-refcount", Weight: 1, Run: c05LockRefcountRun},
 		},
 		Quick:    150000,
 		Thorough: 3000000,
-		Require:  []string{"server.newConnToKnownPeer", "pool.recyclingOn", "copy.duplicate", "copy.exactlyAtBoundary", "copy.fresh.nearBoundary", "dgram.dup", "app.separateResponse", "handler.tookRequestOverAndReleasedIt"},
+		Require:  []string{"server.newConnToKnownPeer", "pool.recyclingOn", "copy.duplicate", "copy.exactlyAtBoundary", "copy.fresh.nearBoundary", "dgram.dup", "app.separateResponse", "handler.tookRequestOverAndReleasedIt", "lock.moreWaitersThanSixteenBits"},
 		Assume: []string{
 			"a copy arriving exactly 247 s after the first is accepted as either duplicate or fresh (the statement is silent on equality)",
 			"in boundary mode handlers return at once, so 'first copy arrived' and 'reply stored' are the same instant; concurrency mode never probes the boundary",
